@@ -82,6 +82,29 @@ def r2(chk, prog):
         obj = object_of(c)
         chk.check(obj is not None, 'R2', f.name, 'dispatch through the member\'s own evalSingleArgument', f.loc(c))
     # members identify arguments through handleIdentifiedArg: covered by C02-R2 on Handler::processArg
+    last_arg_rule(chk, prog, 'R2')
+
+
+def last_arg_rule(chk, prog, rule):
+    """a key element offered to a handler always closes the value list of that handler's previous
+    multi-value argument - also when the handler does not know the key (it may belong to another member
+    of the group): every normal-return path of processArg writes mpLastArg"""
+    f = prog.one('celma::prog_args::Handler', 'processArg')
+    cfg = f.cfg
+    writes = set()
+    for n in f.walk():
+        if n.get('k') == 'BinaryOperator' and n.get('op') == '=':
+            # chained assignment  mpLastArg = p = findArg(): the outermost '=' is the CFG element
+            for x in walk(n):
+                if x.get('k') == 'BinaryOperator' and x.get('op') == '=' and \
+                        field_name(children(x)[0]) == 'mpLastArg':
+                    writes.add(n['id'])
+    chk.require(writes, 'processArg never assigns mpLastArg')
+    bad = cfg.can_reach_exit(cfg.entry_pos(), lambda pos, e: isinstance(e, int) and e in writes)
+    chk.check(not bad, rule, f.name, 'a key element always ends the free-value list of the previous argument '
+              '(also when the key belongs to another handler)', f.loc(),
+              'processArg can return without updating mpLastArg: a later free value is still routed to the '
+              'stale multi-value argument of this handler')
 
 
 def r3(chk, prog):
